@@ -126,7 +126,7 @@ JOBS['C01'] = [
     e2e('e2e_u8_n4_e1_r0_pAAAB', 'uint8_t', 4, 1, 0, timeout=1800, extra=dict(PATTERN=3)),
     e2e('e2e_u8_n4_e1_r0_pAABB', 'uint8_t', 4, 1, 0, timeout=1800, extra=dict(PATTERN=5)),
     e2e('e2e_u8_n4_e1_r1_pAAAA', 'uint8_t', 4, 1, 1, timeout=1800, extra=dict(PATTERN=7)),
-    e2e('e2e_i8_n5_e1_r0_pAAAAB', 'int8_t', 5, 1, 0, timeout=1800, extra=dict(PATTERN=7)),
+    e2e('e2e_i8_n5_e1_r0_pAAAAB', 'int8_t', 5, 1, 0, tiers=T, timeout=4000, extra=dict(PATTERN=7), mem_gb=30),
     e2e('e2e_i8_n4_e1_r0', 'int8_t', 4, 1, 0, tiers=T, timeout=4000, mem_gb=30),
     e2e('e2e_u8_n5_e1_r0_k31', 'uint8_t', 5, 1, 0, tiers=T, timeout=5000, extra=dict(ORD_HI=31), narrow=8, mem_gb=40),
 ]
